@@ -10,7 +10,11 @@ Numbers: parse_num (coq/C03/Model.v, shared by the model of maybe_numeric_compar
 accepts [+-]?(digits[.digits*]|.digits)([eE][+-]?digits)? - exponent folded into (mantissa, fraction digits) by `scale` - so the
 reference compares 1e3 = 1000, 5e-1 = .5, 2.5E1 = 25 by value; the generator's number leaves and the deterministic num_family use
 every such spelling (signs, zero padding, trailing point, exponent with/without fraction) in #ifeq / #switch, directly and through
-arguments, defaults and nested templates."""
+arguments, defaults and nested templates.
+Interior white space: the comparison value of #switch, its keys and the operands of #ifeq may be SEQUENCES of parameters / calls /
+conditionals separated by white-space-only text (gen_seq, probability 0.3; one key repeats the sequence, one is the sequence without
+its separators); ws_family puts such sequences (5 separators x 3 paddings) at every compared or returned position; the reference
+trims at the ends only."""
 import json
 
 from vt import core
